@@ -2,6 +2,8 @@
 `kani`: harness groups; `witness`: replay sub-command used to look for a concrete failing input."""
 PROPS = {
     'C05': {'units': ['directory'], 'kani': ['varint'], 'witness': 'C05'},
-    'C19': {'units': ['directory'], 'witness': 'C19'},
-    'C08': {'units': ['directory'], 'witness': 'C08'},
+    'C19': {'units': ['directory', 'tile_manager'], 'witness': 'C19'},
+    'C08': {'units': ['directory', 'tile_manager'], 'witness': 'C08'},
+    'C04': {'units': ['tile_manager'], 'witness': 'C04'},
+    'C10': {'units': ['tile_manager'], 'witness': 'C10'},
 }
